@@ -92,8 +92,11 @@ class HandlerEval:
             return None
         return r
 
-    def eval_visit(self, vcls: str, kind: str, discr: Optional[str] = None) -> Optional[List[PathResult]]:
-        key = (vcls, kind, discr)
+    def eval_visit(self, vcls: str, kind: str, discr: Optional[str] = None, fields: Optional[Dict[str, Set[str]]] = None) -> Optional[List[PathResult]]:
+        """Paths of visit_<kind> on a node of that kind (operator field fixed to `discr`); `fields` narrows further node-valued
+        fields to the given kinds beforehand (e.g. right={'Null'}), so that a handler which never looks at them is still evaluated
+        for exactly those trees."""
+        key = (vcls, kind, discr) if not fields else (vcls, kind, discr, tuple(sorted((k, tuple(sorted(v))) for k, v in fields.items())))
         if key in self._visit_cache:
             return self._visit_cache[key]
         r = self.resolve_visit(vcls, kind)
@@ -106,7 +109,10 @@ class HandlerEval:
         interp.visit_returns_text = vcls in self.__dict__.setdefault("text_visitors", set())
 
         def setup(it):
-            return ci.module, fn, [ObjV(vcls, {}, "self"), self.make_node(kind, discr)], {}, ci.qual
+            n = self.make_node(kind, discr)
+            for f, ks in (fields or {}).items():
+                n.fields[f] = NodeV(f"node.{f}", set(ks), n, via=f)
+            return ci.module, fn, [ObjV(vcls, {}, "self"), n], {}, ci.qual
 
         paths = interp.explore(setup)
         for p in paths:
